@@ -262,12 +262,11 @@ pub fn c13_after(vt: &Vt, limit: Option<usize>) -> Option<String> {
     let alt = hs.alternate_active;
     // the configured limit never drifts: the primary buffer trims at (L, L + L/10), the alternate at 0
     let (prim, alt_buf) = if alt { (&hs.other_buffer, &hs.buffer) } else { (&hs.buffer, &hs.other_buffer) };
-    let want = limit.map(|l| (l, l + l / 10));
-    if prim.scrollback_limit != want {
-        return Some(format!("the primary buffer's (soft, hard) limits are {:?}, configured limit {:?}", prim.scrollback_limit, limit));
+    if let Some(d) = c13_limits(&prim.scrollback_limit, limit) {
+        return Some(d);
     }
-    if alt_buf.scrollback_limit != Some((0, 0)) {
-        return Some(format!("the alternate buffer's (soft, hard) limits are {:?}", alt_buf.scrollback_limit));
+    if !matches!(alt_buf.scrollback_limit, Some((_, 0))) {
+        return Some(format!("the alternate buffer's (soft, hard) limits are {:?}: it would retain rows above the view", alt_buf.scrollback_limit));
     }
     if alt {
         if n != rows {
@@ -285,6 +284,89 @@ pub fn c13_after(vt: &Vt, limit: Option<usize>) -> Option<String> {
         }
     }
     None
+}
+
+/// The threshold the primary buffer trims at may never exceed what the property allows to be retained
+/// (a buffer that trims *earlier* keeps the bound; whether it then loses lines is C14's question).
+fn c13_limits(actual: &Option<(usize, usize)>, limit: Option<usize>) -> Option<String> {
+    let l = limit?;
+    match actual {
+        None => Some(format!("configured limit {} but the primary buffer trims nothing", l)),
+        Some((_, hard)) if *hard > l + l / 10 => Some(format!("the primary buffer only trims beyond {} retained lines, configured limit {} allows L + L/10 = {}", hard, l, l + l / 10)),
+        _ => None,
+    }
+}
+
+/// Limits far beyond what a session can fill in a quick run: the trim threshold is read through the
+/// hook right after building; when it is too high the breach is then produced for real on a 1x1 screen.
+pub fn c13_large_limits(ctx: &Ctx, rep: &mut Report) {
+    let mut ls: Vec<usize> = (0..=2048).collect();
+    for j in 3..=7u32 {
+        for k in 1..=9usize {
+            for d in [0usize, 1, 5, 9] {
+                ls.push(k * 10usize.pow(j) + d);
+                ls.push(k * 10usize.pow(j) - 1 - d);
+            }
+        }
+    }
+    for j in 11..=26u32 {
+        for d in [-1i64, 0, 1, 9] {
+            ls.push(((1i64 << j) + d) as usize);
+        }
+    }
+    let mut r = Rng::derive(ctx.seed, &[0xC13, 7]);
+    for _ in 0..ctx.scale(20_000, 400_000) {
+        let top = *r.pick(&[1usize << 14, 1 << 18, 1 << 21, 1 << 22, 1 << 24, 1 << 26]);
+        ls.push(r.range(2048, top));
+    }
+    let mut done = 0u64;
+    let mut bad: Vec<(usize, usize, String)> = Vec::new();
+    for u in ctx.units(ls.len()) {
+        let l = ls[u];
+        let mut b = Vt::builder();
+        b.size(1, 1);
+        b.scrollback_limit(l);
+        let vt = b.build();
+        done += 1;
+        rep.evaluations += 1;
+        let hs = vt.verif_state();
+        if let Some(d) = c13_limits(&hs.buffer.scrollback_limit, Some(l)) {
+            let hard = hs.buffer.scrollback_limit.map(|x| x.1).unwrap_or(usize::MAX);
+            bad.push((l, hard, d));
+        }
+        rep.key(mix(0xC13_77, (l.min(4096) as u64) << 8 | (64 - (l as u64).leading_zeros() as u64)));
+    }
+    bad.sort();
+    if let Some((l, hard, d)) = bad.first().cloned() {
+        // produce the breach for the smallest affected limit
+        let hard = hard.min(l + l / 10 + 1000);
+        let mut h = History::new(1, 1, Some(l));
+        // exactly `hard` scrolled lines are still retained when the call returns
+        let mut left = hard;
+        while left > 0 {
+            let n = left.min(1 << 20);
+            h.calls.push(Call::FeedStr("\n".repeat(n)));
+            left -= n;
+        }
+        let mut witnessed = None;
+        if l <= 8_000_000 {
+            let mut vt = h.build();
+            for c in &h.calls {
+                drop(apply(&mut vt, c, Handling::Consume));
+                let n = vt.lines().len();
+                if n > 1 + l + l / 10 {
+                    witnessed = Some(n);
+                    break;
+                }
+            }
+        }
+        let msg = match witnessed {
+            Some(n) => format!("limit {} on a 1x1 screen: {}; after {} line feeds lines() holds {} lines > 1 + L + L/10 = {} ({} limits of this shard's sweep are affected)", l, d, hard, n, 1 + l + l / 10, bad.len()),
+            None => format!("limit {} on a 1x1 screen: {} ({} limits of this shard's sweep are affected)", l, d, bad.len()),
+        };
+        rep.violation("C13", msg, &h);
+    }
+    rep.count("limits_read_back_through_the_hook", done);
 }
 
 pub fn c13_history(h: &History, seed: u64, rep: &mut Report) {
@@ -393,6 +475,24 @@ pub fn work_c13(ctx: &Ctx, rep: &mut Report) {
             rep.sample(format!("bulk: {}", h.brief()));
         }
         c13_history(&h, mix(ctx.seed, u as u64), rep);
+    }
+    c13_large_limits(ctx, rep);
+    // thorough: a few sessions that really fill a limit in the millions (1x1 screen, line feeds in
+    // calls of 2^18) and check the bound after every call
+    if ctx.thorough {
+        for u in ctx.units(32) {
+            let mut r = Rng::derive(ctx.seed, &[0xC13, 8, u as u64]);
+            let l = r.range(1_000_000, 4_000_000) / 10 * 10 + r.below(10);
+            let mut h = History::new(1, 1, Some(l));
+            let mut left = l + l / 10 + 10 + (1 << 18);
+            while left > 0 {
+                let n = left.min(1 << 18);
+                h.calls.push(Call::FeedStr("\n".repeat(n)));
+                left -= n;
+            }
+            c13_history(&h, mix(ctx.seed, u as u64), rep);
+            rep.count("sessions_filling_a_limit_in_the_millions", 1);
+        }
     }
 }
 
